@@ -173,51 +173,53 @@ func c13() []*Ob {
 				}
 			}},
 		{Prop: "C13", ID: "C13.5", Engine: "PROV+SHAPE", Floor: 3,
-			Desc: "structural necessities of the wildcard matcher: checkMiddle searches the middle fragments in val[len(prefix) : len(val)-len(suffix)] (not overlapping prefix or suffix); the prefix-function fallback in findSubstring and calcPrefFunc is iterated (a loop), not a single step",
-			Check: func(c *Ctx) {
-				if fn := c.Fn("(*pattern.wildcardSearch).checkMiddle"); fn != nil {
-					for _, fs := range CallsIn(fn, Callee("pattern.findSequence")) {
-						sl, ok := Arg(fs, 0).(*ssa.Slice)
-						lowOK := ok && sl.Low != nil && DerivesFrom(sl.Low, func(v ssa.Value) bool { return ValueIsField(v, "pattern.wildcardSearch", "prefix") })
-						highOK := ok && sl.High != nil && DerivesFrom(sl.High, func(v ssa.Value) bool { return ValueIsField(v, "pattern.wildcardSearch", "suffix") })
-						if lowOK && highOK {
-							c.Site(fs.Pos(), "middle fragments are searched strictly between prefix and suffix")
-						} else {
-							c.Violation("prov:checkMiddle:window", fs.Pos(), "middle fragments are searched in a window that is not cut at both len(prefix) and len(val)-len(suffix) (low cut: %v, high cut: %v): a fragment can match inside the suffix/prefix and tokens that contain the text only once are accepted", lowOK, highOK)
-						}
-					}
+			Desc:  "structural necessities of the wildcard matcher: checkMiddle searches the middle fragments in val[len(prefix) : len(val)-len(suffix)] (not overlapping prefix or suffix); the prefix-function fallback in findSubstring and calcPrefFunc is iterated (a loop), not a single step",
+			Check: func(c *Ctx) { matcherShape(c) }},
+	}
+}
+
+func matcherShape(c *Ctx) {
+	if fn := c.Fn("(*pattern.wildcardSearch).checkMiddle"); fn != nil {
+		for _, fs := range CallsIn(fn, Callee("pattern.findSequence")) {
+			sl, ok := Arg(fs, 0).(*ssa.Slice)
+			lowOK := ok && sl.Low != nil && DerivesFrom(sl.Low, func(v ssa.Value) bool { return ValueIsField(v, "pattern.wildcardSearch", "prefix") })
+			highOK := ok && sl.High != nil && DerivesFrom(sl.High, func(v ssa.Value) bool { return ValueIsField(v, "pattern.wildcardSearch", "suffix") })
+			if lowOK && highOK {
+				c.Site(fs.Pos(), "middle fragments are searched strictly between prefix and suffix")
+			} else {
+				c.Violation("prov:checkMiddle:window", fs.Pos(), "middle fragments are searched in a window that is not cut at both len(prefix) and len(val)-len(suffix) (low cut: %v, high cut: %v): a fragment can match inside the suffix/prefix and tokens that contain the text only once are accepted", lowOK, highOK)
+			}
+		}
+	}
+	for _, name := range []string{"pattern.findSubstring", "(*pattern.substring).calcPrefFunc"} {
+		fn := c.Fn(name)
+		if fn == nil {
+			continue
+		}
+		found, inner := false, false
+		for _, b := range fn.Blocks {
+			for _, in := range b.Instrs {
+				ld, ok := in.(*ssa.UnOp)
+				if !ok || ld.Op != token.MUL {
+					continue
 				}
-				for _, name := range []string{"pattern.findSubstring", "(*pattern.substring).calcPrefFunc"} {
-					fn := c.Fn(name)
-					if fn == nil {
-						continue
-					}
-					found, inner := false, false
-					for _, b := range fn.Blocks {
-						for _, in := range b.Instrs {
-							ld, ok := in.(*ssa.UnOp)
-							if !ok || ld.Op != token.MUL {
-								continue
-							}
-							ia, ok := ld.X.(*ssa.IndexAddr)
-							if !ok || !ValueIsField(ia.X, "pattern.substring", "prefFunc") {
-								continue
-							}
-							found = true
-							if loopDepth(b) >= 2 {
-								inner = true
-							}
-						}
-					}
-					switch {
-					case !found:
-						c.Undecided("shape:"+name+":fallback", fn.Pos(), "%s no longer reads the prefix function", name)
-					case inner:
-						c.Site(fn.Pos(), "%s: the prefix-function fallback is repeated in an inner loop", name)
-					default:
-						c.Violation("shape:"+name+":fallback-loop", fn.Pos(), "%s falls back through the prefix function at most once per byte: after a mismatch that needs two fallbacks the match length stays too large and a fragment is reported found although it is absent", name)
-					}
+				ia, ok := ld.X.(*ssa.IndexAddr)
+				if !ok || !ValueIsField(ia.X, "pattern.substring", "prefFunc") {
+					continue
 				}
-			}},
+				found = true
+				if loopDepth(b) >= 2 {
+					inner = true
+				}
+			}
+		}
+		switch {
+		case !found:
+			c.Undecided("shape:"+name+":fallback", fn.Pos(), "%s no longer reads the prefix function", name)
+		case inner:
+			c.Site(fn.Pos(), "%s: the prefix-function fallback is repeated in an inner loop", name)
+		default:
+			c.Violation("shape:"+name+":fallback-loop", fn.Pos(), "%s falls back through the prefix function at most once per byte: after a mismatch that needs two fallbacks the match length stays too large and a fragment is reported found although it is absent", name)
+		}
 	}
 }
